@@ -369,9 +369,20 @@ func Main(id, tier string, replayPath string) int {
 			continue
 		}
 		path := writeReplay(id, v)
-		fmt.Printf("VIOLATION property=%s replay=%s\n", id, path)
-		fmt.Printf("  signature=%s\n  %s\n", s, v.Msg)
 		newViol++
+		if newViol <= 12 {
+			fmt.Printf("VIOLATION property=%s replay=%s\n", id, path)
+			msg := v.Msg
+			if len(msg) > 600 {
+				msg = msg[:600] + "..."
+			}
+			fmt.Printf("  signature=%s\n  %s\n", s, msg)
+		} else if newViol == 13 {
+			fmt.Printf("(further violations are listed by signature only; replay files are under /verif/replays)\n")
+			fmt.Printf("  signature=%s\n", s)
+		} else {
+			fmt.Printf("  signature=%s\n", s)
+		}
 		if exit == 0 {
 			exit = 1
 		}
